@@ -86,6 +86,16 @@ func c04Input(w *workspace, variant int, r *rand.Rand) {
 	}
 	w.writeCSVBook(sub, bookSpec{Name: "Reward", Sheets: []sheetSpec{referSheet("DropConf", "GearPool", 1, 2, 3), referSheet("LootConf", "GemPool", 4, 5)}})
 	w.writeCSVBook(sub, bookSpec{Name: "Bonus", Sheets: []sheetSpec{referSheet("BonusConf", "GemPool", 5, 4)}})
+	// type sheets (enum, struct, union) in one workbook, used from OTHER workbooks — also a message nested in the union
+	// (whether a type is known must not depend on which workbook's goroutine runs first)
+	w.writeCSVBook(sub, baseBook())
+	for k := 1; k <= 3; k++ {
+		name := "Use" + strconv.Itoa(k) + "Conf"
+		rows := [][]string{{"ID", "FightBattleID", "FightDamage", "PayID", "PayNum", "Kind"},
+			{"map<uint32, " + name + "Item>", "{.Target.PVP}int32", "int64", "{.Reward}uint32", "int32", "enum<.FruitType>"},
+			{"id", "battle", "damage", "pay id", "pay num", "kind"}, {"1", "100", "2000", "7", "70", "Apple"}, {"2", "101", "3000", "8", "80", "Pear"}}
+		w.writeCSVBook(sub, bookSpec{Name: "Use" + strconv.Itoa(k), Sheets: []sheetSpec{{Name: name, Rows: rows}}})
+	}
 	// transposed sheets (one record per column) with a blank column between filled ones: the pooled row cells of
 	// the skipped column are released on a path of their own
 	for k := 1; k <= 4; k++ {
